@@ -4,7 +4,7 @@ S: Paging.tla - order (time desc, ref desc), token filter, Pages, the transcribe
    assignment of 4 time values (negative, -1 ns, +1 ns, positive) to 5 (6) permanodes, every limit and pivot:
    ExactlyOnce, PageIsNextChunk, AroundOK, AroundFull; sensitivity: each of the deviations UnsignedToken (H5),
    NoTieBreak, TieBreakLeq must break ExactlyOnce.
-G: PagingGen.tla enumerates worlds (n <= 4 exhaustively x 6 time classes incl. pre-1970 and sub-second, -simulate
+G: PagingGen.tla enumerates worlds (n <= 4 exhaustively x 7 time classes incl. pre-1970, sub-second and zoned (same instant, different UTC offsets), -simulate
    for n = 5..6) and the query grid; harness/cmd/c09 builds the signed blobs, indexes them (live corpus and corpus
    reloaded from the rows), follows Continue tokens of search.Handler.Query to the end (or a loop bound) for both
    continuable sorts and every limit, and asks Around for every pivot.
@@ -30,8 +30,8 @@ PRE1970 = {"pre1970", "presub", "span1970", "mixed"}
 VIOL_RX = re.compile(r'^\s*"(\w+)",\s*"(\w+)",\s*"([\w-]+)",\s*"(\w*)",\s*(.*)$', re.S)
 
 
-def signature(ev, cls, tclass):
-    era = "pre-1970" if tclass in PRE1970 else "post-1970"
+def signature(ev, cls, tclass, zoned=False):
+    era = ("pre-1970" if tclass in PRE1970 else "post-1970") + ("+zoned" if zoned else "")
     if ev["ev"] == "pages":
         return "C09/%s/pages:%s/%s/exactly-once->%s" % (ev["mode"], ev["sort"], era, cls)
     return "C09/%s/around:%s/%s/window->%s" % (ev["mode"], ev["sort"], era, cls)
@@ -50,8 +50,9 @@ def validate(ctx, tracefile, cases, leg):
         if not m or m.group(1) != ev["ev"]:
             raise vlib.MachineryError("cannot parse VIOL line %d: %s" % (line, text[:300]))
         cls, tclass, full = m.group(3), m.group(4), " ".join(m.group(5).split())
-        sig = signature(ev, cls, tclass)
         case = cases[ev["w"]]
+        zoned = bool(case.get("opts", {}).get("zones")) and case.get("opts", {}).get("created") == "dc" and ev["sort"] == "created"
+        sig = signature(ev, cls, tclass, zoned)
         shown = {k: v for k, v in ev.items() if k not in ("w",)}
         if ev["ev"] == "pages" and len(ev["pages"]) > 6:
             shown["pages"] = ev["pages"][:6] + ["... %d pages" % len(ev["pages"])]
@@ -196,12 +197,13 @@ def run(ctx, replay):
     ctx.cov["evaluations"] = n1 + n2
     ctx.cov["exhaustive"] = False
     ctx.cov["rule"] = ("world = (n permanodes, time class, slot assignment = tie pattern, options: tagged subset / deleted permanode / deleted later claim / "
-                       "dateCreated in reverse order); exhaustive for n <= %d x 6 time classes (%d worlds), %d simulated worlds n <= 6, %d random worlds up to 200 "
+                       "dateCreated in reverse order); exhaustive for n <= %d x 7 time classes (incl. zoned: tied instants spelled with different UTC offsets in dateCreated) (%d worlds), %d simulated worlds n <= 6, %d random worlds up to 200 "
                        "permanodes on 1..21 instants; per world x {live corpus, reloaded corpus} x {created, mod}: paging for every limit 1..n+1 and an around "
                        "query for every pivot x limit; evaluations = page sequences + around windows validated by TLC; distinct = distinct worlds"
                        % (4 if quick else 5, len(bfs), len(sim), len(rnd)))
     ctx.assumptions += [
         "blobrefs are abstracted to the rank of their text (all sha224); the agreement of Ref.Less with text order is C20",
+        "time zones: only the time-valued attributes can carry a UTC offset into a sort key (claim dates are re-read from index rows, always UTC); dateCreated is the one exercised (Z, +02:00, +05:30, -09:30), the model compares instants",
         "times are (seconds, nanoseconds) pairs read from the world file; created time = dateCreated attribute if set, else modtime (other sources of PermanodeTime - files, EXIF - are not exercised)",
         "claim dates inside the first second of 1970 are never generated: perkeep treats them as missing (Time3339.IsAnyZero) and does not index the claim",
         "every matching permanode has a live claim (claim-less and deleted permanodes are not listed by the sorted sources: C08/H4); tag claims are never deleted here (H2 belongs to C07)",
